@@ -147,6 +147,7 @@ class Ncp:
         self.endpoints = []
         self.config_writes = []  # (configId, value, status name)
         self.value_writes = []
+        self.write_log = []  # ("config"|"value", id, value, status name) in arrival order
         self.counters = [0] * 41
         self.ext_timeout = {}
         self.source_routes = []
@@ -339,9 +340,11 @@ class Ncp:
         cid = int(configId)
         if cid in self.config_reject:
             self.config_writes.append((cid, int(value), "INVALID_CALL"))
+            self.write_log.append(("config", cid, int(value), "INVALID_CALL"))
             return (St("INVALID_CALL"),)
         self.config[cid] = int(value)
         self.config_writes.append((cid, int(value), "OK"))
+        self.write_log.append(("config", cid, int(value), "OK"))
         return (St("OK"),)
 
     def h_getValue(self, req, valueId):
@@ -358,9 +361,11 @@ class Ncp:
         vid = int(valueId)
         if vid in self.value_reject:
             self.value_writes.append((vid, bytes(value), "INVALID_CALL"))
+            self.write_log.append(("value", vid, bytes(value), "INVALID_CALL"))
             return (St("INVALID_CALL"),)
         self.values[vid] = bytes(value)
         self.value_writes.append((vid, bytes(value), "OK"))
+        self.write_log.append(("value", vid, bytes(value), "OK"))
         if vid == 0x23:  # VALUE_NWK_FRAME_COUNTER
             self.nwk_fc = int.from_bytes(bytes(value)[:4], "little")
         if vid == 0x24:  # VALUE_APS_FRAME_COUNTER
